@@ -1,17 +1,232 @@
-import Gallia.Model.Lifecycle
-import Gallia.Spec.Lifecycle
+import Gallia.Proofs.Lemmas.LifecycleSteps
 /-
-  Helper lemmas for C15: what `runBody` does to the world (frame), which exception leaves it, and the
-  observable trace it appends.
+  Helper lemmas for C15, part 2: what `runBody` (= `AsyncScript.run` over the step lists of the command kind) does to the
+  world (frame), which exception leaves it, the observable trace it appends and the resources it leaves behind; then
+  `entry_point` in closed form.
 -/
+set_option linter.unusedSimpArgs false
 namespace Gallia.Lifecycle
 open Gallia.Lifecycle.Spec
 
+/-! ### the four framework segments: fault, neutrality, resources -/
+
+theorem dumpcapStep_neutral (d : Dumpcap) : (dumpcapStep d).neutral = true := by cases d <;> rfl
+
+theorem scannerSetup_neutral (c : Cfg) (s : Script) : ∀ p ∈ scannerSetup c s, p.neutral = true := by
+  have h : (scannerSetup c s).all Step.neutral = true := by
+    unfold scannerSetup
+    cases c.power <;> cases (c.art && c.dumpcap) <;> cases s.dumpcap <;> simp [Step.neutral, Fx.dbNeutral, dumpcapStep]
+  simpa [List.all_eq_true] using h
+
+theorem udsSetup_neutral (c : Cfg) (s : Script) : ∀ p ∈ udsSetup c s, p.neutral = true := by
+  have h : (udsSetup c s).all Step.neutral = true := by
+    unfold udsSetup
+    cases c.tp <;> cases c.props <;> simp [Step.neutral, Fx.dbNeutral]
+  simpa [List.all_eq_true] using h
+
+theorem udsTeardown_neutral (c : Cfg) (s : Script) : ∀ p ∈ udsTeardown c s, p.neutral = true := by
+  have h : (udsTeardown c s).all Step.neutral = true := by
+    unfold udsTeardown
+    cases c.tp <;> cases c.props <;> simp [Step.neutral, Fx.dbNeutral]
+  simpa [List.all_eq_true] using h
+
+theorem scannerTeardown_neutral (c : Cfg) (s : Script) : ∀ p ∈ scannerTeardown {} c s, p.neutral = true := by
+  have h : (scannerTeardown {} c s).all Step.neutral = true := by
+    unfold scannerTeardown
+    cases dumpcapActive c s <;> simp [Step.neutral, Fx.dbNeutral]
+  simpa [List.all_eq_true] using h
+
+theorem setupSteps_neutral (c : Cfg) (s : Script) : ∀ p ∈ setupSteps c s, p.neutral = true := by
+  intro p hp
+  simp only [setupSteps, List.mem_append, List.mem_singleton] at hp
+  rcases hp with (hp | hp) | hp
+  · split at hp
+    · exact scannerSetup_neutral c s p hp
+    · simp at hp
+  · split at hp
+    · exact udsSetup_neutral c s p hp
+    · simp at hp
+  · subst hp; rfl
+
+theorem teardownSteps_neutral (c : Cfg) (s : Script) : ∀ p ∈ teardownSteps {} c s, p.neutral = true := by
+  intro p hp
+  simp only [teardownSteps, List.mem_append, List.mem_singleton] at hp
+  rcases hp with ((hp | hp) | hp) | hp
+  · subst hp; rfl
+  · split at hp
+    · exact udsTeardown_neutral c s p hp
+    · simp at hp
+  · split at hp
+    · exact scannerTeardown_neutral c s p hp
+    · simp at hp
+  · subst hp; rfl
+
+theorem dumpcapStep_ev (c : Cfg) (s : Script) (h : (c.art && c.dumpcap) = true) :
+    (dumpcapStep s.dumpcap).ev = dumpcapFault c s := by
+  unfold dumpcapFault; rw [h]; cases s.dumpcap <;> rfl
+
+theorem firstFault_scannerSetup (c : Cfg) (s : Script) : firstFault (scannerSetup c s) = scannerSetupFault c s := by
+  unfold scannerSetup scannerSetupFault beforeConnect
+  cases hp : c.power <;> cases hd : (c.art && c.dumpcap) <;>
+    simp [firstFault_append, dumpcapStep_ev c s, hd, orElse_assoc] <;> simp [dumpcapFault, hd]
+
+theorem firstFault_udsSetup (c : Cfg) (s : Script) : firstFault (udsSetup c s) = udsSetupFault c s := by
+  unfold udsSetup udsSetupFault
+  cases c.tp <;> cases c.props <;> simp [firstFault_append]
+
+theorem firstFault_udsTeardown (c : Cfg) (s : Script) : firstFault (udsTeardown c s) = udsTeardownFault c s := by
+  unfold udsTeardown udsTeardownFault
+  cases c.tp <;> cases c.props <;> simp [firstFault_append]
+
+theorem firstFault_scannerTeardown (q : Quirks) (c : Cfg) (s : Script) :
+    firstFault (scannerTeardown q c s) = scannerTeardownFault c s := by
+  unfold scannerTeardown scannerTeardownFault
+  cases dumpcapActive c s <;> simp [firstFault_append]
+
+theorem firstFault_setupSteps (c : Cfg) (s : Script) : firstFault (setupSteps c s) = setupFault c s := by
+  unfold setupSteps setupFault
+  cases c.kind.isScanner <;> cases c.kind.isUds <;>
+    simp [firstFault_append, firstFault_scannerSetup, firstFault_udsSetup, orElse_assoc]
+
+theorem firstFault_teardownSteps (q : Quirks) (c : Cfg) (s : Script) :
+    firstFault (teardownSteps q c s) = teardownFault c s := by
+  unfold teardownSteps teardownFault
+  cases c.kind.isScanner <;> cases c.kind.isUds <;>
+    simp [firstFault_append, firstFault_scannerTeardown, firstFault_udsTeardown, orElse_assoc]
+
+/-! ### resources, segment by segment (brute force over the switches and over raise / return of each step) -/
+
+section segments
+variable (c : Cfg) (s : Script) (x : Bool)
+
+theorem tr_scannerSetup :
+    resAfter Fx.tr (scannerSetup c s) x = if (scannerSetupFault c s).isNone then true else x := by
+  unfold scannerSetup scannerSetupFault beforeConnect dumpcapFault
+  cases c.power <;> cases (c.art && c.dumpcap) <;> cases s.dumpcap <;> cases s.power <;> cases s.connect <;>
+    simp [resAfter, dumpcapStep, Fx.tr]
+
+theorem tr_udsSetup : resAfter Fx.tr (udsSetup c s) x = x := by
+  unfold udsSetup
+  cases c.tp <;> cases c.props <;> cases s.ecuConnect <;> cases s.tpStart <;> cases s.propsPre <;>
+    simp [resAfter, Fx.tr]
+
+theorem tr_udsTeardown :
+    resAfter Fx.tr (udsTeardown c s) x = if (udsTeardownFault c s).isNone then false else x := by
+  unfold udsTeardown udsTeardownFault
+  cases c.tp <;> cases c.props <;> cases s.propsPost <;> cases s.tpStop <;> cases s.ecuClose <;>
+    simp [resAfter, Fx.tr]
+
+theorem tr_scannerTeardown :
+    resAfter Fx.tr (scannerTeardown {} c s) x = if s.close.isNone then false else x := by
+  unfold scannerTeardown
+  cases dumpcapActive c s <;> cases s.close <;> cases s.dcStop <;> simp [resAfter, Fx.tr]
+
+theorem tp_scannerSetup : resAfter Fx.tp (scannerSetup c s) x = x := by
+  unfold scannerSetup
+  cases c.power <;> cases (c.art && c.dumpcap) <;> cases s.dumpcap <;> cases s.power <;> cases s.connect <;>
+    simp [resAfter, dumpcapStep, Fx.tp]
+
+theorem tp_udsSetup :
+    resAfter Fx.tp (udsSetup c s) x = if c.tp && s.ecuConnect.isNone && s.tpStart.isNone then true else x := by
+  unfold udsSetup
+  cases c.tp <;> cases c.props <;> cases s.ecuConnect <;> cases s.tpStart <;> cases s.propsPre <;>
+    simp [resAfter, Fx.tp]
+
+theorem tp_udsTeardown :
+    resAfter Fx.tp (udsTeardown c s) x =
+      if c.tp && (if c.props then s.propsPost else none).isNone then false else x := by
+  unfold udsTeardown
+  cases c.tp <;> cases c.props <;> cases s.propsPost <;> cases s.tpStop <;> cases s.ecuClose <;>
+    simp [resAfter, Fx.tp]
+
+theorem tp_scannerTeardown : resAfter Fx.tp (scannerTeardown {} c s) x = x := by
+  unfold scannerTeardown
+  cases dumpcapActive c s <;> cases s.close <;> cases s.dcStop <;> simp [resAfter, Fx.tp]
+
+theorem dc_scannerSetup :
+    resAfter Fx.dc (scannerSetup c s) x =
+      if c.art && c.dumpcap && (if c.power then s.power else none).isNone &&
+          (s.dumpcap == .started || s.dumpcap == .syncFails) then true else x := by
+  unfold scannerSetup
+  cases c.power <;> cases c.art <;> cases c.dumpcap <;> cases s.dumpcap <;> cases s.power <;> cases s.connect <;>
+    simp [resAfter, dumpcapStep, Fx.dc]
+
+theorem dc_udsSetup : resAfter Fx.dc (udsSetup c s) x = x := by
+  unfold udsSetup
+  cases c.tp <;> cases c.props <;> cases s.ecuConnect <;> cases s.tpStart <;> cases s.propsPre <;>
+    simp [resAfter, Fx.dc]
+
+theorem dc_udsTeardown : resAfter Fx.dc (udsTeardown c s) x = x := by
+  unfold udsTeardown
+  cases c.tp <;> cases c.props <;> cases s.propsPost <;> cases s.tpStop <;> cases s.ecuClose <;>
+    simp [resAfter, Fx.dc]
+
+theorem dc_scannerTeardown :
+    resAfter Fx.dc (scannerTeardown {} c s) x =
+      if dumpcapActive c s && s.close.isNone && s.dcStop.isNone then false else x := by
+  unfold scannerTeardown
+  cases dumpcapActive c s <;> cases s.close <;> cases s.dcStop <;> simp [resAfter, Fx.dc]
+
+theorem tr_setupSteps :
+    resAfter Fx.tr (setupSteps c s) x = if transportOpened c s then true else x := by
+  unfold setupSteps transportOpened
+  cases c.kind <;> cases h1 : scannerSetupFault c s <;> cases h2 : udsSetupFault c s <;> cases h3 : s.setup <;>
+    simp [Kind.isScanner, Kind.isUds, resAfter_append, firstFault_append, firstFault_scannerSetup, firstFault_udsSetup,
+      tr_scannerSetup, tr_udsSetup, resAfter, Fx.tr, h1, h2, h3]
+
+theorem tr_teardownSteps :
+    resAfter Fx.tr (teardownSteps {} c s) x =
+      if c.kind.isScanner && (uptoFirstClose c s).isNone then false else x := by
+  unfold teardownSteps uptoFirstClose
+  cases c.kind <;> cases h0 : s.tdPre <;> cases h1 : udsTeardownFault c s <;> cases h2 : s.close <;>
+    cases h3 : scannerTeardownFault c s <;> cases h4 : s.tdPost <;>
+    simp [Kind.isScanner, Kind.isUds, resAfter_append, firstFault_append, firstFault_scannerTeardown,
+      firstFault_udsTeardown, tr_scannerTeardown, tr_udsTeardown, resAfter, Fx.tr, h0, h1, h2, h3, h4]
+
+theorem tp_setupSteps :
+    resAfter Fx.tp (setupSteps c s) x = if tpStarted c s then true else x := by
+  unfold setupSteps tpStarted
+  cases c.kind <;> cases h1 : scannerSetupFault c s <;> cases h2 : udsSetupFault c s <;> cases h3 : s.setup <;>
+    simp [Kind.isScanner, Kind.isUds, resAfter_append, firstFault_append, firstFault_scannerSetup, firstFault_udsSetup,
+      tp_scannerSetup, tp_udsSetup, resAfter, Fx.tp, h1, h2, h3]
+
+theorem tp_teardownSteps :
+    resAfter Fx.tp (teardownSteps {} c s) x =
+      if c.kind.isUds && c.tp && s.tdPre.isNone && (if c.props then s.propsPost else none).isNone then false else x := by
+  unfold teardownSteps
+  cases c.kind <;> cases h0 : s.tdPre <;> cases h1 : udsTeardownFault c s <;>
+    cases h3 : scannerTeardownFault c s <;> cases h4 : s.tdPost <;>
+    simp [Kind.isScanner, Kind.isUds, resAfter_append, firstFault_append, firstFault_scannerTeardown,
+      firstFault_udsTeardown, tp_scannerTeardown, tp_udsTeardown, resAfter, Fx.tp, h0, h1, h3, h4]
+
+theorem dc_setupSteps :
+    resAfter Fx.dc (setupSteps c s) x = if dcStarted c s then true else x := by
+  unfold setupSteps dcStarted
+  cases c.kind <;> cases h1 : scannerSetupFault c s <;> cases h2 : udsSetupFault c s <;> cases h3 : s.setup <;>
+    simp [Kind.isScanner, Kind.isUds, resAfter_append, firstFault_append, firstFault_scannerSetup, firstFault_udsSetup,
+      dc_scannerSetup, dc_udsSetup, resAfter, Fx.dc, h1, h2, h3]
+
+theorem dc_teardownSteps :
+    resAfter Fx.dc (teardownSteps {} c s) x =
+      if c.kind.isScanner && dumpcapActive c s && s.tdPre.isNone &&
+          (if c.kind.isUds then udsTeardownFault c s else none).isNone && s.close.isNone && s.dcStop.isNone
+        then false else x := by
+  unfold teardownSteps
+  cases c.kind <;> cases h0 : s.tdPre <;> cases h1 : udsTeardownFault c s <;>
+    cases h3 : scannerTeardownFault c s <;> cases h4 : s.tdPost <;>
+    simp [Kind.isScanner, Kind.isUds, resAfter_append, firstFault_append, firstFault_scannerTeardown,
+      firstFault_udsTeardown, dc_scannerTeardown, dc_udsTeardown, resAfter, Fx.dc, h0, h1, h3, h4]
+
+end segments
+
+/-! ### `AsyncScript.run` -/
+
 /-- the exception leaving `runBody` is the one Python's try/finally rules name -/
-theorem runBody_exc (q : Quirks) (k : Kind) (s : Script) (st : St) :
-    (runBody q k s st).2 = raised s := by
+theorem runBody_exc (q : Quirks) (c : Cfg) (s : Script) (st : St) :
+    (runBody q c s st).2 = raised c s := by
   unfold runBody raised
-  cases s.setup <;> cases s.tdPre <;> cases s.tdPost <;> simp
+  simp only [runSteps_exc, firstFault_setupSteps, firstFault_teardownSteps]
+  cases setupFault c s <;> cases teardownFault c s <;> rfl
 
 /-- ... and the `try:` body as a whole ends the way the specification says -/
 theorem tryBody_exc (q : Quirks) (c : Cfg) (s : Script) (st : St) :
@@ -19,54 +234,146 @@ theorem tryBody_exc (q : Quirks) (c : Cfg) (s : Script) (st : St) :
   unfold tryBody ended
   cases c.db <;> cases s.dbFails <;> simp [runBody_exc]
 
-/-- everything `run()` leaves alone (current code: no quirk) and the clock moves on -/
-theorem runBody_frame (k : Kind) (s : Script) (st : St) :
-    let r := (runBody {} k s st).1
-    r.lockHeld = st.lockHeld ∧ r.logOpen = st.logOpen ∧ r.dbConn = st.dbConn ∧ r.dbRow = st.dbRow ∧
-    r.metaFile = st.metaFile ∧ r.reports = st.reports ∧ r.preRan = st.preRan ∧ r.postEnv = st.postEnv ∧
-    r.endTime = st.endTime ∧ st.tick < r.tick := by
-  cases k <;> cases h1 : s.setup <;> cases h2 : s.tdPre <;> cases h3 : s.tdPost <;>
-    simp [runBody, baseTeardown, St.obs, St.obsN, Kind.isScanner, Kind.closes, h1, h2, h3] <;> omega
+theorem performed_pos (ps : List Step) (h : ps ≠ []) : 0 < (performed ps).length := by
+  cases ps with
+  | nil => contradiction
+  | cons p ps => simp [performed]
 
-/-- the instrumented actions `run()` performs, read off the script -/
-def bodyActs (k : Kind) (s : Script) : List Act :=
-  (if k.isScanner then [.connect] else []) ++ [.setup] ++
-    match s.setup with
-    | some _ => []
-    | none => [.main, .tdPre] ++
-      match s.tdPre with
-      | some _ => []
-      | none => List.replicate k.closes .close ++ [.tdPost]
+/-- the steps `run()` reaches, read off the script -/
+def bodySteps (c : Cfg) (s : Script) : List Step :=
+  performed (setupSteps c s) ++
+    (if (setupFault c s).isNone then ({ act := .main } : Step) :: performed (teardownSteps {} c s) else [])
 
-theorem runBody_trace (k : Kind) (s : Script) (st : St) :
-    (runBody {} k s st).1.trace = st.trace ++ (bodyActs k s).map fun a => ⟨a, st.lockHeld, st.metaFile.isSome⟩ := by
-  cases k <;> cases h1 : s.setup <;> cases h2 : s.tdPre <;> cases h3 : s.tdPost <;>
-    simp [runBody, bodyActs, baseTeardown, St.obs, St.obsN, Kind.isScanner, Kind.closes, h1, h2, h3, List.replicate]
+/-- the instrumented actions `run()` performs -/
+def bodyActs (c : Cfg) (s : Script) : List Act := (bodySteps c s).map (·.act)
 
-theorem runBody_tick_eq (k : Kind) (s : Script) (st : St) :
-    (runBody {} k s st).1.tick = st.tick + (bodyActs k s).length := by
-  cases k <;> cases h1 : s.setup <;> cases h2 : s.tdPre <;> cases h3 : s.tdPost <;>
-    simp [runBody, bodyActs, baseTeardown, St.obs, St.obsN, Kind.isScanner, Kind.closes, h1, h2, h3, List.replicate]
+/-- state after `run()` of the current code (no quirk), in terms of the two step lists -/
+theorem runBody_fst (c : Cfg) (s : Script) (st : St) :
+    (runBody {} c s st).1 =
+      if (setupFault c s).isNone then
+        (runSteps (teardownSteps {} c s) ((runSteps (setupSteps c s) st).1.obs .main)).1
+      else (runSteps (setupSteps c s) st).1 := by
+  unfold runBody
+  simp only [runSteps_exc, firstFault_setupSteps, firstFault_teardownSteps]
+  cases setupFault c s <;> cases teardownFault c s <;> rfl
 
-theorem runBody_transportOpen (k : Kind) (s : Script) (st : St) :
-    (runBody {} k s st).1.transportOpen =
-      if k.isScanner then (s.setup.isSome || s.tdPre.isSome) else st.transportOpen := by
-  cases k <;> cases h1 : s.setup <;> cases h2 : s.tdPre <;> cases h3 : s.tdPost <;>
-    simp [runBody, baseTeardown, St.obs, St.obsN, Kind.isScanner, Kind.closes, h1, h2, h3]
+theorem runBody_core (c : Cfg) (s : Script) (st : St) : (runBody {} c s st).1.core = st.core := by
+  rw [runBody_fst]
+  split
+  · rw [runSteps_core _ _ (teardownSteps_neutral c s), obs_core, runSteps_core _ _ (setupSteps_neutral c s)]
+  · rw [runSteps_core _ _ (setupSteps_neutral c s)]
+
+theorem runBody_tick_eq (c : Cfg) (s : Script) (st : St) :
+    (runBody {} c s st).1.tick = st.tick + (bodyActs c s).length := by
+  rw [runBody_fst]
+  unfold bodyActs bodySteps
+  split <;> rename_i h
+  · rw [runSteps_tick _ _ (teardownSteps_neutral c s)]
+    simp only [St.obs]
+    rw [runSteps_tick _ _ (setupSteps_neutral c s)]
+    simp [h]; omega
+  · rw [runSteps_tick _ _ (setupSteps_neutral c s)]
+    simp [h]
+
+theorem runBody_trace (c : Cfg) (s : Script) (st : St) :
+    (runBody {} c s st).1.trace = st.trace ++ (bodyActs c s).map fun a => ⟨a, st.lockHeld, st.metaFile.isSome⟩ := by
+  have hc := runSteps_core _ st (setupSteps_neutral c s)
+  have h1 : (runSteps (setupSteps c s) st).1.lockHeld = st.lockHeld := congrArg Core.lockHeld hc
+  have h2 : (runSteps (setupSteps c s) st).1.metaFile = st.metaFile := congrArg Core.metaFile hc
+  rw [runBody_fst]
+  unfold bodyActs bodySteps
+  split <;> rename_i h
+  · rw [runSteps_trace _ _ (teardownSteps_neutral c s)]
+    simp only [St.obs]
+    rw [runSteps_trace _ _ (setupSteps_neutral c s), h1, h2]
+    simp [h, Function.comp_def]
+  · rw [runSteps_trace _ _ (setupSteps_neutral c s)]
+    simp [h, Function.comp_def]
+
+theorem runBody_transportOpen (c : Cfg) (s : Script) (st : St) :
+    (runBody {} c s st).1.transportOpen =
+      if transportOpened c s then !transportClosedAgain c s
+      else (st.transportOpen && !(c.kind.isScanner && transportClosedAgain c s)) := by
+  rw [runBody_fst]
+  unfold transportClosedAgain
+  split <;> rename_i h
+  · simp only [runSteps_transportOpen, St.obs, tr_teardownSteps, tr_setupSteps, h]
+    have hk : transportOpened c s = true → c.kind.isScanner = true := by
+      unfold transportOpened; simp only [Bool.and_eq_true]; exact fun a => a.1
+    cases h1 : transportOpened c s <;> cases h2 : c.kind.isScanner <;> cases (uptoFirstClose c s).isNone <;>
+      cases st.transportOpen <;> simp_all
+  · simp only [runSteps_transportOpen, tr_setupSteps, h]
+    cases transportOpened c s <;> cases st.transportOpen <;> simp
+
+theorem runBody_tpRunning (c : Cfg) (s : Script) (st : St) :
+    (runBody {} c s st).1.tpRunning =
+      if tpStarted c s then !tpStopReached c s
+      else (st.tpRunning && !(c.kind.isUds && c.tp && tpStopReached c s)) := by
+  rw [runBody_fst]
+  unfold tpStopReached
+  split <;> rename_i h
+  · simp only [runSteps_tpRunning, St.obs, tp_teardownSteps, tp_setupSteps, h]
+    have hk : tpStarted c s = true → c.kind.isUds = true ∧ c.tp = true := by
+      unfold tpStarted; simp only [Bool.and_eq_true]; exact fun a => ⟨a.1.1.1.1, a.1.1.1.2⟩
+    cases h1 : tpStarted c s <;> cases h2 : c.kind.isUds <;> cases h3 : c.tp <;> cases s.tdPre.isNone <;>
+      cases (if c.props then s.propsPost else none).isNone <;> cases st.tpRunning <;> simp_all
+  · simp only [runSteps_tpRunning, tp_setupSteps, h]
+    cases tpStarted c s <;> cases st.tpRunning <;> simp
+
+theorem dcStarted_active (c : Cfg) (s : Script) (h1 : dcStarted c s = true) (h2 : (setupFault c s).isNone = true) :
+    dumpcapActive c s = true := by
+  unfold dcStarted at h1
+  unfold setupFault scannerSetupFault beforeConnect dumpcapFault at h2
+  unfold dumpcapActive
+  cases hk : c.kind.isScanner <;> cases ha : c.art <;> cases hd : c.dumpcap <;> cases hs : s.dumpcap <;>
+    simp [hk, ha, hd, hs] at h1 h2 ⊢
+  cases hp : c.power <;> cases hq : s.power <;> simp [hp, hq] at h1 h2
+
+theorem runBody_dcRunning (c : Cfg) (s : Script) (st : St) :
+    (runBody {} c s st).1.dcRunning =
+      if dcStarted c s then !dcStopDone c s
+      else (st.dcRunning && !(c.kind.isScanner && dumpcapActive c s && dcStopDone c s)) := by
+  rw [runBody_fst]
+  unfold dcStopDone
+  split <;> rename_i h
+  · simp only [runSteps_dcRunning, St.obs, dc_teardownSteps, dc_setupSteps, h]
+    cases h1 : dcStarted c s
+    · cases c.kind.isScanner <;> cases dumpcapActive c s <;> cases s.tdPre.isNone <;>
+        cases (if c.kind.isUds then udsTeardownFault c s else none).isNone <;> cases s.close.isNone <;>
+        cases s.dcStop.isNone <;> cases st.dcRunning <;> simp
+    · have ha := dcStarted_active c s h1 h
+      have hk : c.kind.isScanner = true := by unfold dcStarted at h1; simp at h1; exact h1.1.1.1.1
+      simp only [ha, hk]
+      cases s.tdPre <;> cases s.close <;> cases s.dcStop <;> cases c.kind.isUds <;> cases udsTeardownFault c s <;> simp
+  · simp only [runSteps_dcRunning, dc_setupSteps, h]
+    cases dcStarted c s <;> cases st.dcRunning <;> simp
 
 section frame
-variable (k : Kind) (s : Script) (st : St)
-@[simp] theorem runBody_lockHeld : (runBody {} k s st).1.lockHeld = st.lockHeld := (runBody_frame k s st).1
-@[simp] theorem runBody_logOpen : (runBody {} k s st).1.logOpen = st.logOpen := (runBody_frame k s st).2.1
-@[simp] theorem runBody_dbConn : (runBody {} k s st).1.dbConn = st.dbConn := (runBody_frame k s st).2.2.1
-@[simp] theorem runBody_dbRow : (runBody {} k s st).1.dbRow = st.dbRow := (runBody_frame k s st).2.2.2.1
-@[simp] theorem runBody_metaFile : (runBody {} k s st).1.metaFile = st.metaFile := (runBody_frame k s st).2.2.2.2.1
-@[simp] theorem runBody_reports : (runBody {} k s st).1.reports = st.reports := (runBody_frame k s st).2.2.2.2.2.1
-@[simp] theorem runBody_preRan : (runBody {} k s st).1.preRan = st.preRan := (runBody_frame k s st).2.2.2.2.2.2.1
-@[simp] theorem runBody_postEnv : (runBody {} k s st).1.postEnv = st.postEnv := (runBody_frame k s st).2.2.2.2.2.2.2.1
-@[simp] theorem runBody_endTime : (runBody {} k s st).1.endTime = st.endTime := (runBody_frame k s st).2.2.2.2.2.2.2.2.1
-theorem runBody_tick : st.tick < (runBody {} k s st).1.tick := (runBody_frame k s st).2.2.2.2.2.2.2.2.2
+variable (c : Cfg) (s : Script) (st : St)
+@[simp] theorem runBody_lockHeld : (runBody {} c s st).1.lockHeld = st.lockHeld := congrArg Core.lockHeld (runBody_core c s st)
+@[simp] theorem runBody_logOpen : (runBody {} c s st).1.logOpen = st.logOpen := congrArg Core.logOpen (runBody_core c s st)
+@[simp] theorem runBody_dbConn : (runBody {} c s st).1.dbConn = st.dbConn := congrArg Core.dbConn (runBody_core c s st)
+@[simp] theorem runBody_dbRow : (runBody {} c s st).1.dbRow = st.dbRow := congrArg Core.dbRow (runBody_core c s st)
+@[simp] theorem runBody_metaFile : (runBody {} c s st).1.metaFile = st.metaFile := congrArg Core.metaFile (runBody_core c s st)
+@[simp] theorem runBody_reports : (runBody {} c s st).1.reports = st.reports := congrArg Core.reports (runBody_core c s st)
+@[simp] theorem runBody_preRan : (runBody {} c s st).1.preRan = st.preRan := congrArg Core.preRan (runBody_core c s st)
+@[simp] theorem runBody_postEnv : (runBody {} c s st).1.postEnv = st.postEnv := congrArg Core.postEnv (runBody_core c s st)
+@[simp] theorem runBody_endTime : (runBody {} c s st).1.endTime = st.endTime := congrArg Core.endTime (runBody_core c s st)
+@[simp] theorem runBody_waited : (runBody {} c s st).1.waited = st.waited := congrArg Core.waited (runBody_core c s st)
+@[simp] theorem runBody_artDir : (runBody {} c s st).1.artDir = st.artDir := congrArg Core.artDir (runBody_core c s st)
+@[simp] theorem runBody_runs : (runBody {} c s st).1.runs = st.runs := congrArg Core.runs (runBody_core c s st)
+@[simp] theorem runBody_latest : (runBody {} c s st).1.latest = st.latest := congrArg Core.latest (runBody_core c s st)
+theorem runBody_tick : st.tick < (runBody {} c s st).1.tick := by
+  rw [runBody_tick_eq]
+  have h1 : setupSteps c s ≠ [] := by unfold setupSteps; simp
+  have h2 := performed_pos _ h1
+  have : 0 < (bodyActs c s).length := by
+    unfold bodyActs bodySteps
+    simp only [List.length_map, List.length_append]; omega
+  omega
 end frame
+
+/-! ### `entry_point` -/
 
 /-- the current ladder realises the documented mapping and lets nothing through -/
 theorem mapExit_current (k : Kind) (e : Option Exc) : mapExit {} k e = (exitOf k e, false) := by
@@ -76,99 +383,346 @@ theorem mapExit_current (k : Kind) (e : Option Exc) : mapExit {} k e = (exitOf k
 theorem runHook_current_snd (h : Hook) (b : Bool) (st : St) : (runHook {} h b st).2 = false := by
   unfold runHook; cases b <;> simp
 
-theorem prePhase_current_snd (c : Cfg) (s : Script) : (prePhase {} c s).2 = false := by
-  unfold prePhase; cases c.hooks <;> simp [runHook_current_snd]
+theorem hookPre_current_snd (c : Cfg) (s : Script) (st : St) : (hookPre {} c s st).2 = false := by
+  unfold hookPre; cases c.hooks <;> simp [runHook_current_snd]
 
 theorem postPhase_current_snd (c : Cfg) (s : Script) (n : Nat) (st : St) : (postPhase {} c s n st).2 = false := by
   unfold postPhase; cases c.hooks <;> simp [runHook_current_snd]
 
+/-- the world after the lock has been taken -/
+def lockedSt (w : World) (c : Cfg) : St :=
+  if c.lock then { (St.init w).step with lockHeld := true, waited := w.lock == .busy } else St.init w
+
+/-- the world when the run starts: lock taken, artifacts directory created, log handler attached -/
+def startSt (w : World) (c : Cfg) : St :=
+  if c.art then
+    { (lockedSt w c).step with artDir := some w.now, runs := w.runs ++ [{ name := w.now }],
+                               latest := lastName (w.runs ++ [{ name := w.now }]), logOpen := true }
+  else lockedSt w c
+
 /-- state when the `finally:` block is done -/
-def finishedState (c : Cfg) (s : Script) : St :=
-  finish c (code c s) (tryBody {} c s (prePhase {} c s).1).1
+def finishedState (w : World) (c : Cfg) (s : Script) : St :=
+  finish c (code c s) (tryBody {} c s (hookPre {} c s (startSt w c)).1).1
 
 /-- state after the post-hook and the release of the lock -/
-def endState (c : Cfg) (s : Script) : St :=
-  unlock c (postPhase {} c s (code c s) (finishedState c s)).1
+def endState (w : World) (c : Cfg) (s : Script) : St :=
+  unlock c (postPhase {} c s (code c s) (finishedState w c s)).1
 
 /-- logical time of the run_meta insert (= when the pre-run steps are done) -/
-def startTick (c : Cfg) (s : Script) : Nat := (prePhase {} c s).1.tick
+def startTick (w : World) (c : Cfg) (s : Script) : Nat := (hookPre {} c s (startSt w c)).1.tick
 
 /-- logical time at which the `finally:` block takes `run_meta.end_time` -/
-def stopTick (c : Cfg) (s : Script) : Nat := (tryBody {} c s (prePhase {} c s).1).1.tick
+def stopTick (w : World) (c : Cfg) (s : Script) : Nat := (tryBody {} c s (hookPre {} c s (startSt w c)).1).1.tick
 
-theorem startTick_pos (c : Cfg) (s : Script) : 0 < startTick c s := by
-  unfold startTick prePhase
-  cases c.lock <;> cases c.art <;> cases c.hooks <;> cases s.preFails <;> simp [runHook, St.obs, St.step]
+theorem startTick_pos (w : World) (c : Cfg) (s : Script) : 0 < startTick w c s := by
+  unfold startTick hookPre startSt lockedSt
+  cases c.lock <;> cases c.art <;> cases c.hooks <;> cases s.preFails <;> simp [runHook, St.obs, St.step, St.init]
 
-theorem start_lt_stop (c : Cfg) (s : Script) : startTick c s < stopTick c s := by
-  have h := runBody_tick c.kind s (dbInsert c (prePhase {} c s).1)
-  have h2 : (prePhase {} c s).1.tick ≤ (dbInsert c (prePhase {} c s).1).tick := by
+theorem start_lt_stop (w : World) (c : Cfg) (s : Script) : startTick w c s < stopTick w c s := by
+  have h := runBody_tick c s (dbInsert c (hookPre {} c s (startSt w c)).1)
+  have h2 : (hookPre {} c s (startSt w c)).1.tick ≤ (dbInsert c (hookPre {} c s (startSt w c)).1).tick := by
     unfold dbInsert; cases c.db <;> simp [St.step]
   unfold startTick stopTick tryBody
   cases c.db <;> cases s.dbFails <;> simp [St.step] at * <;> omega
 
-/-- `entry_point` of the current code always returns, with the documented code, from `endState` -/
-theorem entryPoint_eq (c : Cfg) (s : Script) :
-    entryPoint c s = (endState c s).final (.ret (code c s)) := by
-  simp [entryPoint, entryPointQ, endState, finishedState, code, prePhase_current_snd, postPhase_current_snd,
+/-- `entry_point` of the current code, once the run has started, always returns, with the documented code, from `endState` -/
+theorem fromPreHook_eq (w : World) (c : Cfg) (s : Script) :
+    fromPreHook {} c s (startSt w c) = (endState w c s).final (.ret (code c s)) := by
+  simp [fromPreHook, endState, finishedState, code, hookPre_current_snd, postPhase_current_snd,
     tryBody_exc, mapExit_current]
 
-/-- every field of the outcome in closed form -/
+/-- the world when the wait for the lock is cut short by Ctrl-C -/
+def interruptedSt (w : World) : St := { (St.init w).step with lockHeld := true, waited := true }
+
+theorem lockPhase_eq (w : World) (c : Cfg) :
+    lockPhase w c (St.init w) =
+      if c.lock && w.lock == .broken then .failed
+      else if c.lock && w.lock == .interrupted then .interrupted (interruptedSt w)
+      else .ok (lockedSt w c) := by
+  unfold lockPhase lockedSt interruptedSt
+  cases c.lock <;> cases w.lock <;> simp [St.init, St.step] <;> rfl
+
+theorem artPhase_eq (w : World) (c : Cfg) :
+    artPhase {} w c (lockedSt w c) = if c.art && (!w.baseOk || nameTaken w) then none else some (startSt w c) := by
+  have hr : (lockedSt w c).runs = w.runs := by unfold lockedSt; cases c.lock <;> rfl
+  unfold artPhase startSt nameTaken
+  rw [hr]
+  cases c.art <;> cases w.baseOk <;> cases (w.runs.any fun x => x.name == w.now) <;> simp [hr]
+
+/-- the four ways the prologue can go -/
+theorem entryPointW_eq (w : World) (c : Cfg) (s : Script) :
+    entryPointW {} w c s =
+      match startOf w c with
+      | .noLock => (St.init w).final (.ret OSFILE)
+      | .lockWaitInterrupted => (interruptedSt w).final .escLockWait
+      | .noArtDir => (lockedSt w c).final .escArt
+      | .started => (endState w c s).final (.ret (code c s)) := by
+  unfold entryPointW startOf
+  rw [lockPhase_eq]
+  cases h1 : (c.lock && w.lock == .broken)
+  · simp only [Bool.false_eq_true, ↓reduceIte]
+    cases h0 : (c.lock && w.lock == .interrupted)
+    · simp only [Bool.false_eq_true, ↓reduceIte]
+      rw [artPhase_eq]
+      cases h2 : (c.art && (!w.baseOk || nameTaken w))
+      · simp only [Bool.false_eq_true, ↓reduceIte]; exact fromPreHook_eq w c s
+      · simp
+    · simp
+  · simp
+
+/-- a META.json written into a directory whose name no other directory has touches nothing else -/
+theorem writeMeta_fresh (n x : Nat) (rs : List RunDir) (h : (rs.any fun r => r.name == n) = false) :
+    writeMeta n x (rs ++ [{ name := n }]) = rs ++ [{ name := n, metaTag := some x }] := by
+  unfold writeMeta
+  rw [List.map_append]
+  congr 1
+  · have : ∀ r ∈ rs, (if (r.name == n) = true then { r with metaTag := some x } else r) = r := by
+      intro r hr
+      have := List.any_eq_false.mp h r hr
+      simp [this]
+    conv => rhs; rw [← List.map_id rs]
+    exact List.map_congr_left this
+  · simp
+
+/-- every field of the outcome of a run that started, in closed form -/
+theorem started_fields (w : World) (c : Cfg) (s : Script) :
+    let f := (endState w c s).final (.ret (code c s))
+    let x := code c s
+    f.exit = .ret x ∧ f.lockReleased = true ∧ f.logClosed = true ∧ f.dbClosed = true ∧
+    f.preRan = c.hooks ∧ f.reports = failing c s ∧
+    f.metaFile = (if c.art then some ⟨x, 0, stopTick w c s⟩ else none) ∧
+    f.dbRow = (if c.db && !s.dbFails then .done (startTick w c s) (stopTick w c s + 1) x else .absent) ∧
+    f.postEnv = (if c.hooks then some ⟨x, x, stopTick w c s⟩ else none) ∧
+    f.waited = (c.lock && w.lock == .busy) ∧
+    f.artDir = (if c.art then some w.now else none) ∧
+    f.runs = (if c.art then writeMeta w.now x (w.runs ++ [{ name := w.now }]) else w.runs) ∧
+    f.latest = (if c.art then lastName (w.runs ++ [{ name := w.now }]) else w.latest) := by
+  cases hl : c.lock <;> cases hh : c.hooks <;> cases ha : c.art <;> cases hd : c.db <;> cases hf : s.dbFails <;>
+    cases hp : s.preFails <;> cases hq : s.postFails <;>
+  simp [St.final, endState, finishedState, unlock, postPhase, finish, tryBody, dbInsert, hookPre, runHook, St.obs,
+    St.step, startTick, stopTick, failing, startSt, lockedSt, St.init, hl, hh, ha, hd, hf, hp, hq]
+
+/-- transport, tester-present task, dumpcap process -/
+structure Res where
+  tr : Bool
+  tp : Bool
+  dc : Bool
+
+def St.res (st : St) : Res := ⟨st.transportOpen, st.tpRunning, st.dcRunning⟩
+
+theorem startSt_res (w : World) (c : Cfg) : (startSt w c).res = ⟨false, false, false⟩ := by
+  unfold startSt lockedSt; cases c.lock <;> cases c.art <;> rfl
+
+theorem hookPre_res (c : Cfg) (s : Script) (st : St) : (hookPre {} c s st).1.res = st.res := by
+  unfold hookPre runHook; cases c.hooks <;> cases s.preFails <;> rfl
+
+theorem finish_res (c : Cfg) (n : Nat) (st : St) : (finish c n st).res = st.res := by
+  unfold finish; cases h : st.dbConn <;> cases c.art <;> simp [St.step, St.res, h]
+
+theorem postPhase_res (c : Cfg) (s : Script) (n : Nat) (st : St) : (postPhase {} c s n st).1.res = st.res := by
+  unfold postPhase runHook; cases c.hooks <;> cases s.postFails <;> rfl
+
+theorem unlock_res (c : Cfg) (st : St) : (unlock c st).res = st.res := by
+  unfold unlock; cases c.lock <;> rfl
+
+theorem tryBody_res (c : Cfg) (s : Script) (st : St) (h : st.res = ⟨false, false, false⟩) :
+    (tryBody {} c s st).1.res =
+      ⟨!(c.db && s.dbFails) && transportOpened c s && !transportClosedAgain c s,
+       !(c.db && s.dbFails) && tpStarted c s && !tpStopReached c s,
+       !(c.db && s.dbFails) && dcStarted c s && !dcStopDone c s⟩ := by
+  simp only [St.res, Res.mk.injEq] at h
+  obtain ⟨h1, h2, h3⟩ := h
+  have e1 : (dbInsert c st).transportOpen = false := by unfold dbInsert; cases c.db <;> simp [St.step, h1]
+  have e2 : (dbInsert c st).tpRunning = false := by unfold dbInsert; cases c.db <;> simp [St.step, h2]
+  have e3 : (dbInsert c st).dcRunning = false := by unfold dbInsert; cases c.db <;> simp [St.step, h3]
+  unfold tryBody
+  cases hd : (c.db && s.dbFails)
+  · simp only [Bool.false_eq_true, ↓reduceIte, St.res, runBody_transportOpen, runBody_tpRunning, runBody_dcRunning,
+      e1, e2, e3]
+    cases transportOpened c s <;> cases tpStarted c s <;> cases dcStarted c s <;> simp
+  · simp [St.res, St.step, h1, h2, h3]
+
+/-- the resources of a run that started -/
+theorem started_resources (w : World) (c : Cfg) (s : Script) :
+    let f := (endState w c s).final (.ret (code c s))
+    f.transportClosed = !(!(c.db && s.dbFails) && transportOpened c s && !transportClosedAgain c s) ∧
+    f.tpStopped = !(!(c.db && s.dbFails) && tpStarted c s && !tpStopReached c s) ∧
+    f.dcStopped = !(!(c.db && s.dbFails) && dcStarted c s && !dcStopDone c s) := by
+  have h : (endState w c s).res =
+      ⟨!(c.db && s.dbFails) && transportOpened c s && !transportClosedAgain c s,
+       !(c.db && s.dbFails) && tpStarted c s && !tpStopReached c s,
+       !(c.db && s.dbFails) && dcStarted c s && !dcStopDone c s⟩ := by
+    unfold endState finishedState
+    rw [unlock_res, postPhase_res, finish_res, tryBody_res _ _ _ (by rw [hookPre_res, startSt_res])]
+  simp only [St.res, Res.mk.injEq] at h
+  simp only [St.final, h.1, h.2.1, h.2.2]
+  exact ⟨trivial, trivial, trivial⟩
+
+/-- the observable trace of a run that started: the lock is held at every action, META.json exists only for the post-hook -/
+theorem started_trace (w : World) (c : Cfg) (s : Script) :
+    ((endState w c s).final (.ret (code c s))).trace =
+      (if c.hooks then [⟨.pre, c.lock, false⟩] else []) ++
+      (if c.db && s.dbFails then [] else (bodyActs c s).map (fun a => ⟨a, c.lock, false⟩)) ++
+      (if c.hooks then [⟨.post, c.lock, c.art⟩] else []) := by
+  cases hl : c.lock <;> cases hh : c.hooks <;> cases ha : c.art <;> cases hd : c.db <;> cases hf : s.dbFails <;>
+    cases hp : s.preFails <;> cases hq : s.postFails <;>
+  simp [St.final, endState, finishedState, unlock, postPhase, finish, tryBody, dbInsert, hookPre, runHook, St.obs,
+    St.step, runBody_trace, startSt, lockedSt, St.init, hl, hh, ha, hd, hf, hp, hq]
+
+/-! ### the benign world, and what the world changes -/
+
+theorem startOf_noLock (w : World) (c : Cfg) (h : startOf w c = .noLock) : c.lock = true ∧ w.lock = .broken := by
+  unfold startOf at h
+  by_cases h1 : (c.lock && w.lock == .broken) = true
+  · simpa using h1
+  · rw [if_neg h1] at h
+    split at h
+    · cases h
+    · split at h <;> cases h
+
+theorem startOf_interrupted (w : World) (c : Cfg) (h : startOf w c = .lockWaitInterrupted) :
+    c.lock = true ∧ w.lock = .interrupted := by
+  unfold startOf at h
+  by_cases h1 : (c.lock && w.lock == .broken) = true
+  · rw [if_pos h1] at h; cases h
+  · rw [if_neg h1] at h
+    by_cases h2 : (c.lock && w.lock == .interrupted) = true
+    · simpa using h2
+    · rw [if_neg h2] at h
+      split at h <;> cases h
+
+theorem startOf_started_fresh (w : World) (c : Cfg) (h : startOf w c = .started) (ha : c.art = true) :
+    (w.runs.any fun r => r.name == w.now) = false := by
+  unfold startOf at h
+  by_cases h1 : (c.lock && w.lock == .broken) = true
+  · rw [if_pos h1] at h; cases h
+  · rw [if_neg h1] at h
+    by_cases h2 : (c.lock && w.lock == .interrupted) = true
+    · rw [if_pos h2] at h; cases h
+    · rw [if_neg h2] at h
+      by_cases h3 : (c.art && (!w.baseOk || nameTaken w)) = true
+      · rw [if_pos h3] at h; cases h
+      · simp only [ha, Bool.true_and, Bool.or_eq_true, Bool.not_eq_eq_eq_not, Bool.not_true, not_or,
+          Bool.not_eq_false, Bool.not_eq_true] at h3
+        exact h3.2
+
+/-- the lock of the world only matters through `broken` / `interrupted` -/
+theorem startOf_busy_free (w : World) (c : Cfg) :
+    startOf { w with lock := .busy } c = startOf { w with lock := .free } c ∧
+    startOf { w with lock := .free } c ≠ .noLock ∧ startOf { w with lock := .free } c ≠ .lockWaitInterrupted := by
+  unfold startOf nameTaken
+  cases c.lock <;> simp <;> (repeat' split) <;> simp
+
+theorem startOf_benign (c : Cfg) : startOf {} c = .started := by
+  unfold startOf nameTaken; cases c.lock <;> cases c.art <;> rfl
+
+theorem entryPoint_eq (c : Cfg) (s : Script) : entryPoint c s = (endState {} c s).final (.ret (code c s)) := by
+  unfold entryPoint entryPointQ
+  rw [entryPointW_eq, startOf_benign]
+
+theorem Final.ext_fields (f g : Final)
+    (h1 : f.exit = g.exit) (h2 : f.metaFile = g.metaFile) (h3 : f.dbRow = g.dbRow) (h4 : f.dbClosed = g.dbClosed)
+    (h5 : f.logClosed = g.logClosed) (h6 : f.lockReleased = g.lockReleased) (h7 : f.preRan = g.preRan)
+    (h8 : f.postEnv = g.postEnv) (h9 : f.reports = g.reports) (h10 : f.transportClosed = g.transportClosed)
+    (h11 : f.trace = g.trace) (h12 : f.tpStopped = g.tpStopped) (h13 : f.dcStopped = g.dcStopped)
+    (h14 : f.waited = g.waited) (h15 : f.artDir = g.artDir) (h16 : f.runs = g.runs) (h17 : f.latest = g.latest) :
+    f = g := by
+  cases f; cases g; simp_all
+
+theorem startSt_tick (w : World) (c : Cfg) : (startSt w c).tick = (startSt {} c).tick := by
+  unfold startSt lockedSt; cases c.lock <;> cases c.art <;> rfl
+
+/-- the logical clock of a run does not look at the world -/
+theorem ticks_world (w : World) (c : Cfg) (s : Script) :
+    startTick w c s = startTick {} c s ∧ stopTick w c s = stopTick {} c s := by
+  have h := startSt_tick w c
+  unfold startTick stopTick tryBody dbInsert hookPre runHook
+  cases c.hooks <;> cases c.db <;> cases s.dbFails <;> cases s.preFails <;>
+    simp [St.obs, St.step, runBody_tick_eq, h]
+
+/-- `lastName` is the largest name -/
+theorem lastName_none (rs : List RunDir) : lastName rs = none ↔ rs = [] := by
+  cases rs with
+  | nil => simp [lastName]
+  | cons r rs => cases h : lastName rs <;> simp [lastName, h]
+
+theorem lastName_spec (rs : List RunDir) (m : Nat) (h : lastName rs = some m) :
+    (∃ r ∈ rs, r.name = m) ∧ ∀ r ∈ rs, r.name ≤ m := by
+  induction rs generalizing m with
+  | nil => simp [lastName] at h
+  | cons r rs ih =>
+    cases hl : lastName rs with
+    | none =>
+      have : rs = [] := (lastName_none rs).mp hl
+      subst this
+      simp [lastName] at h
+      subst h; simp
+    | some k =>
+      simp [lastName, hl] at h
+      obtain ⟨⟨r', hr', hk⟩, hle⟩ := ih k hl
+      subst h
+      constructor
+      · by_cases hc : r.name ≤ k
+        · exact ⟨r', List.mem_cons_of_mem _ hr', by omega⟩
+        · exact ⟨r, by simp, by omega⟩
+      · intro x hx
+        rcases List.mem_cons.mp hx with rfl | hx
+        · omega
+        · have := hle x hx; omega
+
+/-! ### closed forms in a benign world -/
+
+/-- the closed form all theorems about a benign world start from -/
 theorem entryPoint_fields (c : Cfg) (s : Script) :
     let f := entryPoint c s
     let x := code c s
     f.exit = .ret x ∧ f.lockReleased = true ∧ f.logClosed = true ∧ f.dbClosed = true ∧
     f.preRan = c.hooks ∧ f.reports = failing c s ∧
-    f.metaFile = (if c.art then some ⟨x, 0, stopTick c s⟩ else none) ∧
-    f.dbRow = (if c.db && !s.dbFails then .done (startTick c s) (stopTick c s + 1) x else .absent) ∧
-    f.postEnv = (if c.hooks then some ⟨x, x, stopTick c s⟩ else none) := by
+    f.metaFile = (if c.art then some ⟨x, 0, stopTick {} c s⟩ else none) ∧
+    f.dbRow = (if c.db && !s.dbFails then .done (startTick {} c s) (stopTick {} c s + 1) x else .absent) ∧
+    f.postEnv = (if c.hooks then some ⟨x, x, stopTick {} c s⟩ else none) := by
   rw [entryPoint_eq]
-  cases hl : c.lock <;> cases hh : c.hooks <;> cases ha : c.art <;> cases hd : c.db <;> cases hf : s.dbFails <;>
-    cases hp : s.preFails <;> cases hq : s.postFails <;>
-  simp [St.final, endState, finishedState, unlock, postPhase, finish, tryBody, dbInsert, prePhase, runHook, St.obs,
-    St.step, startTick, stopTick, failing, hl, hh, ha, hd, hf, hp, hq]
+  obtain ⟨h1, h2, h3, h4, h5, h6, h7, h8, h9, -⟩ := started_fields {} c s
+  exact ⟨h1, h2, h3, h4, h5, h6, h7, h8, h9⟩
 
-theorem prePhase_transportOpen (c : Cfg) (s : Script) : (prePhase {} c s).1.transportOpen = false := by
-  unfold prePhase runHook
-  cases c.lock <;> cases c.art <;> cases c.hooks <;> cases s.preFails <;> simp [St.obs, St.step]
-
-theorem finish_transportOpen (c : Cfg) (n : Nat) (st : St) : (finish c n st).transportOpen = st.transportOpen := by
-  unfold finish
-  cases h : st.dbConn <;> cases c.art <;> simp [St.step, h]
-
-theorem postPhase_transportOpen (c : Cfg) (s : Script) (n : Nat) (st : St) :
-    (postPhase {} c s n st).1.transportOpen = st.transportOpen := by
-  unfold postPhase runHook
-  cases c.hooks <;> cases s.postFails <;> simp [St.obs]
-
-theorem unlock_transportOpen (c : Cfg) (st : St) : (unlock c st).transportOpen = st.transportOpen := by
-  unfold unlock; cases c.lock <;> simp [St.step]
-
-theorem tryBody_transportOpen (c : Cfg) (s : Script) (st : St) :
-    (tryBody {} c s st).1.transportOpen =
-      if c.db && s.dbFails then st.transportOpen
-      else if c.kind.isScanner then (s.setup.isSome || s.tdPre.isSome) else st.transportOpen := by
-  unfold tryBody dbInsert
-  cases c.db <;> cases s.dbFails <;> simp [runBody_transportOpen, St.step]
-
-theorem entryPoint_transport (c : Cfg) (s : Script) :
-    (entryPoint c s).transportClosed =
-      !(!(c.db && s.dbFails) && c.kind.isScanner && (s.setup.isSome || s.tdPre.isSome)) := by
-  rw [entryPoint_eq]
-  simp only [St.final, endState, finishedState, unlock_transportOpen, postPhase_transportOpen, finish_transportOpen,
-    tryBody_transportOpen, prePhase_transportOpen]
-  cases c.db <;> cases s.dbFails <;> cases c.kind.isScanner <;> simp
-
-/-- the observable trace in closed form: the lock is held at every action, META.json exists only for the post-hook -/
 theorem entryPoint_trace (c : Cfg) (s : Script) :
     (entryPoint c s).trace =
       (if c.hooks then [⟨.pre, c.lock, false⟩] else []) ++
-      (if c.db && s.dbFails then [] else (bodyActs c.kind s).map (fun a => ⟨a, c.lock, false⟩)) ++
+      (if c.db && s.dbFails then [] else (bodyActs c s).map (fun a => ⟨a, c.lock, false⟩)) ++
       (if c.hooks then [⟨.post, c.lock, c.art⟩] else []) := by
-  rw [entryPoint_eq]
-  cases hl : c.lock <;> cases hh : c.hooks <;> cases ha : c.art <;> cases hd : c.db <;> cases hf : s.dbFails <;>
-    cases hp : s.preFails <;> cases hq : s.postFails <;>
-  simp [St.final, endState, finishedState, unlock, postPhase, finish, tryBody, dbInsert, prePhase, runHook, St.obs,
-    St.step, runBody_trace, hl, hh, ha, hd, hf, hp, hq]
+  rw [entryPoint_eq]; exact started_trace {} c s
+
+/-- no step of `setup()` / `main()` / `teardown()` is a hook -/
+theorem bodyActs_no_hook (c : Cfg) (s : Script) : Act.post ∉ bodyActs c s ∧ Act.pre ∉ bodyActs c s := by
+  have hs : ∀ p ∈ setupSteps c s, p.act ≠ .post ∧ p.act ≠ .pre := by
+    have h : (setupSteps c s).all (fun p => p.act != .post && p.act != .pre) = true := by
+      unfold setupSteps scannerSetup udsSetup
+      cases c.kind <;> cases c.power <;> cases (c.art && c.dumpcap) <;> cases c.tp <;> cases c.props <;>
+        cases s.dumpcap <;> simp [Kind.isScanner, Kind.isUds, dumpcapStep]
+    intro p hp
+    have := List.all_eq_true.mp h p hp
+    simpa using this
+  have ht : ∀ p ∈ teardownSteps {} c s, p.act ≠ .post ∧ p.act ≠ .pre := by
+    have h : (teardownSteps {} c s).all (fun p => p.act != .post && p.act != .pre) = true := by
+      unfold teardownSteps scannerTeardown udsTeardown
+      cases c.kind <;> cases dumpcapActive c s <;> cases c.tp <;> cases c.props <;>
+        simp [Kind.isScanner, Kind.isUds]
+    intro p hp
+    have := List.all_eq_true.mp h p hp
+    simpa using this
+  have key : ∀ p ∈ bodySteps c s, p.act ≠ .post ∧ p.act ≠ .pre := by
+    intro p hp
+    unfold bodySteps at hp
+    rcases List.mem_append.mp hp with hp | hp
+    · exact hs p (performed_sublist _ p hp)
+    · split at hp
+      · rcases List.mem_cons.mp hp with rfl | hp
+        · exact ⟨by decide, by decide⟩
+        · exact ht p (performed_sublist _ p hp)
+      · simp at hp
+  unfold bodyActs
+  constructor <;> (intro h; obtain ⟨p, hp, he⟩ := List.mem_map.mp h)
+  · exact (key p hp).1 he
+  · exact (key p hp).2 he
 
 end Gallia.Lifecycle
